@@ -359,6 +359,24 @@ def snapshot(obj):
     return out
 
 
+# names under which the container keeps its own state in `__dict__` (with and without the underscore)
+INTERNAL_NAMES = ['attributes', 'strict', 'span', 'index', '_attributes', '_strict', 'names', 'LAGS']
+# add_variable(name) stores the array under `'_' + name`: these two names collide with the container's own entries
+CLOBBERING_VARIABLE_NAMES = ('attributes', 'strict')
+
+
+def internal_state(obj):
+    """The container's own bookkeeping, as plain values (for before / after comparison by the oracles)."""
+    def grab(k):
+        v = obj.__dict__.get(k, '<absent>')
+        try:
+            return [repr(x) for x in v] if isinstance(v, (list, tuple, range, np.ndarray, pd.Index)) else repr(v)
+        except Exception:  # noqa: BLE001
+            return '<unreadable>'
+    return {'index': grab('index'), '_attributes': grab('_attributes'), '_strict': grab('_strict'),
+            'span': grab('span'), 'keys': sorted(obj.__dict__)}
+
+
 def same_array(a, b):
     return a.shape == b.shape and a.dtype == b.dtype and a.tobytes() == b.tobytes()
 
@@ -555,6 +573,14 @@ def run_segments(case, observer=None):
             if item['op'] == 'addVariable' and out == 'ok':
                 decl.append(item['name'])
             seg['impl'].append(out + '|' + dump_state(obj))
+        clobbered = item['op'] == 'addVariable' and item['name'] in CLOBBERING_VARIABLE_NAMES and out == 'ok'
+        if clobbered:
+            # the new array has replaced the container's own `_attributes` / `_strict` entry: what the object does from
+            # here on is not a container's behaviour any more — the oracle reports it, the history ends here
+            seg['impl'].pop()
+            if observer:
+                observer(obj, item, before, out, exc, decl)
+            break
         seg['items'].append(model_item(item, ids, alts))
         if observer:
             observer(obj, item, before, out, exc, decl)
